@@ -5,6 +5,7 @@ import (
 	"errors"
 	"fmt"
 	"io"
+	"strings"
 
 	"github.com/cloudwego/gopkg/protocol/thrift"
 
@@ -64,6 +65,10 @@ func c18Cause(i int) error {
 		return errors.New("") // a cause with empty text
 	case 7:
 		return multiErr{io.EOF, c18Sentinel} // non-comparable dynamic type
+	case 8:
+		return errors.Join(errors.New("first"), c18Sentinel, io.EOF) // a tree of causes (Unwrap() []error)
+	case 9:
+		return fmt.Errorf("relay: %w; and %w", thrift.NewApplicationException(6, "inner app"), fmt.Errorf("deeper: %w", io.EOF))
 	}
 	return nil
 }
@@ -81,18 +86,54 @@ func c18Make(kind string, id int32, msg string, cause int) error {
 		return thrift.NewApplicationException(id, msg)
 	case "foreign":
 		return foreignExc{id, msg}
+	case "foreign-embeds-application":
+		return embApp{thrift.NewApplicationException(id, msg), id + 1000}
+	case "foreign-embeds-transport":
+		return &embTrans{thrift.NewTransportException(id, msg), id ^ 0x1000}
+	case "foreign-embeds-protocol":
+		return embProto{ProtocolException: thrift.NewProtocolException(id, msg)}
 	case "plain":
 		return errors.New(msg)
 	}
 	panic("c18Make")
 }
 
-var c18Kinds = []string{"transport", "protocol", "protocol-with-cause", "application", "foreign", "plain"}
+var c18Kinds = []string{"transport", "protocol", "protocol-with-cause", "application", "foreign", "plain", "foreign-embeds-application", "foreign-embeds-transport", "foreign-embeds-protocol"}
+
+// user error types that embed one of the library's exceptions (and so inherit its methods) but are types of their own,
+// with their own type id
+type embApp struct {
+	*thrift.ApplicationException
+	own int32
+}
+
+func (e embApp) TypeId() int32 { return e.own }
+
+type embTrans struct {
+	*thrift.TransportException
+	own int32
+}
+
+func (e *embTrans) TypeId() int32 { return e.own }
+
+type embProto struct {
+	Note string
+	*thrift.ProtocolException
+}
+
+func (e embProto) TypeId() int32 { return e.ProtocolException.TypeId() + 70000 }
+
+func c18Family(kind string) string {
+	if strings.HasPrefix(kind, "foreign") {
+		return "foreign"
+	}
+	return kind
+}
 
 func c18Prepend(c *mc.Ctx, k c18Case) {
 	c.Eval(1)
 	bad := func(class, format string, a ...interface{}) {
-		c.Violate("prepend", "C18|PrependError|"+k.Kind+"|"+class, fmt.Sprintf("PrependError(%q, %s exception type=%d msg=%q cause=%d wrapped=%v): ", k.Prefix, k.Kind, k.TypeID, k.Msg, k.Cause, k.Wrap)+fmt.Sprintf(format, a...), k)
+		c.Violate("prepend", "C18|PrependError|"+c18Family(k.Kind)+"|"+class, fmt.Sprintf("PrependError(%q, %s exception type=%d msg=%q cause=%d wrapped=%v): ", k.Prefix, k.Kind, k.TypeID, k.Msg, k.Cause, k.Wrap)+fmt.Sprintf(format, a...), k)
 	}
 	pi := mc.Try(func() {
 		orig := c18Make(k.Kind, k.TypeID, k.Msg, k.Cause)
@@ -149,7 +190,7 @@ func c18Prepend(c *mc.Ctx, k c18Case) {
 			bad("argument-modified", "a second PrependError on the same error gives %q, want %q", again, wantText)
 			return
 		}
-		kind := k.Kind
+		kind := c18Family(k.Kind)
 		if k.Wrap {
 			kind = "plain" // a wrapped chain is a plain error for PrependError's purposes
 		}
@@ -278,6 +319,15 @@ func c18Is(c *mc.Ctx, k c18Case) {
 		want := c18RefIs(pe, cause, t)
 		if got := errors.Is(pe, t); got != want {
 			bad(fmt.Sprintf("want-%v", want), "errors.Is = %v, want %v (matches any exception whose type id and error text equal its own type id and message, otherwise exactly when its cause matches)", got, want)
+			return
+		}
+		// the Is method called directly (as wrappers and older helper libraries do) gives the same answer
+		wantDirect := want
+		if error(pe) == t {
+			wantDirect = c18RefIs(thrift.NewProtocolException(pe.TypeId(), pe.Msg()), cause, t) // no identity shortcut in a direct call
+		}
+		if got := pe.Is(t); got != wantDirect {
+			bad(fmt.Sprintf("direct-want-%v", wantDirect), "the Is method called directly = %v while errors.Is(cause, target) / the type-id-and-text rule give %v", got, wantDirect)
 		}
 	})
 	if pi != nil {
@@ -291,7 +341,7 @@ func c18Run(c *mc.Ctx) {
 			for _, msg := range c18Msgs {
 				causes := []int{0}
 				if kind == "protocol-with-cause" {
-					causes = []int{1, 2, 3, 4, 5, 6, 7}
+					causes = []int{1, 2, 3, 4, 5, 6, 7, 8, 9}
 				}
 				for _, cause := range causes {
 					for _, wrap := range []bool{false, true} {
@@ -310,7 +360,7 @@ func c18Run(c *mc.Ctx) {
 			}
 		}
 	}
-	c.Done("PrependError / NewProtocolExceptionWithErr: 6 error kinds x 15 type ids x 4 messages x 6 causes x {bare, wrapped in fmt.Errorf} x 3 prefixes")
+	c.Done("PrependError / NewProtocolExceptionWithErr: 9 error kinds (incl. user types embedding each library exception) x 15 type ids x 4 messages x 9 causes (incl. joined / multi-%w trees) x {bare, wrapped in fmt.Errorf} x 3 prefixes")
 	// errors.Is: all ordered pairs (protocol exception, target)
 	type tgt = struct {
 		Kind   string `json:"kind"`
@@ -328,7 +378,7 @@ func c18Run(c *mc.Ctx) {
 			}
 		}
 	}
-	for cs := 1; cs <= 7; cs++ {
+	for cs := 1; cs <= 9; cs++ {
 		targets = append(targets, tgt{Kind: "cause", Cause: cs}, tgt{Kind: "protocol-with-cause", Cause: cs})
 	}
 	// default-text targets: an application exception with an empty message reports the default text for its id
@@ -351,7 +401,7 @@ func c18Run(c *mc.Ctx) {
 			}
 		}
 	}
-	for cs := 1; cs <= 7; cs++ {
+	for cs := 1; cs <= 9; cs++ {
 		for ti := range targets {
 			if !c.Mine() {
 				continue
@@ -374,7 +424,7 @@ func c18Run(c *mc.Ctx) {
 func init() {
 	Register(&Check{
 		ID: "C18", Level: "exploration", Shards: 4,
-		Rule:        "whole product: 6 error kinds (transport, protocol, protocol-with-cause, application, foreign type exposing TypeId, plain) x 15 type ids x 4 messages incl. empty and non-UTF-8 x 6 causes (io.EOF, sentinel, wrapped chain, another protocol exception, an application exception, empty-text error) x {bare, wrapped in fmt.Errorf} x 3 prefixes for PrependError / NewProtocolExceptionWithErr; errors.Is over all ordered pairs (protocol exception, target) incl. identity, default-text targets and causes; distinct = distinct parameter tuples",
+		Rule:        "whole product: 9 error kinds (transport, protocol, protocol-with-cause, application, foreign type exposing TypeId, plain, user types embedding each of the three library exceptions) x 15 type ids x 4 messages incl. empty and non-UTF-8 x 6 causes (io.EOF, sentinel, wrapped chain, another protocol exception, an application exception, empty-text error, non-comparable, errors.Join tree, multi-%w tree) x {bare, wrapped in fmt.Errorf} x 3 prefixes for PrependError / NewProtocolExceptionWithErr; errors.Is and the Is method called directly over all ordered pairs (protocol exception, target) incl. identity, default-text targets and causes; distinct = distinct parameter tuples",
 		Assumptions: []string{"errors.Is compares for identity before consulting the Is method (standard library behaviour), so an exception always matches itself"},
 		Run:         c18Run,
 		Replay: func(c *mc.Ctx, sub string, raw json.RawMessage) {
